@@ -72,6 +72,7 @@ type c09Case struct {
 	ReqSize   int      `json:"req_size"`
 	Filter    string   `json:"filter"` // prepost | cf
 	GapMs     int      `json:"gap_ms"`
+	Prime     bool     `json:"prime"`   // one call (answered at once) establishes the connection before the callers start
 	Warm      bool     `json:"warm"`    // the adapter proxy exists before the first call (concurrent first callers share it)
 	Predict   bool     `json:"predict"` // outcome classes and times are determined by the script (sent to the model's canonical run)
 	Obs       *c09Obs  `json:"obs,omitempty"`
@@ -172,7 +173,7 @@ func c09RunScenario(c *c09Case) *c09Obs {
 		id     int32
 		status int32
 	}
-	infos := make([]callInfo, c.Callers*c.Calls)
+	infos := make([]callInfo, c.Callers*c.Calls+1)
 	pre := func(ctx context.Context, msg *tars.Message) {
 		call, _ := ctx.Value(c09CtxKey{}).(int)
 		infos[call].id = msg.Req.IRequestId
@@ -214,63 +215,69 @@ func c09RunScenario(c *c09Case) *c09Obs {
 	if size < 8 {
 		size = 8
 	}
-	results := make([]c09CallObs, c.Callers*c.Calls)
+	ncalls := c.Callers * c.Calls
+	if c.Prime {
+		ncalls++ // the priming call has the last index and runs first, alone
+	}
+	results := make([]c09CallObs, ncalls)
 	for i := range results {
 		results[i] = c09CallObs{Call: i, Caller: i / c.Calls, Out: "hang"}
 	}
 	var rmu sync.Mutex
 	var wg sync.WaitGroup
 	start := make(chan struct{})
+	doCall := func(call, k int) {
+		buf := make([]byte, size)
+		tag := uint32(0xA0000000) | uint32(call)
+		buf[0], buf[1], buf[2], buf[3] = byte(tag>>24), byte(tag>>16), byte(tag>>8), byte(tag)
+		ctx := current.ContextWithClientCurrent(context.WithValue(context.Background(), c09CtxKey{}, call))
+		if c.PerCallMs > 0 {
+			current.SetClientTimeout(ctx, c.PerCallMs)
+		}
+		cancel := func() {}
+		if c.CtxMs > 0 {
+			ctx, cancel = context.WithTimeout(ctx, time.Duration(c.CtxMs)*time.Millisecond)
+		}
+		var resp requestf.ResponsePacket
+		log.add(c09Event{Kind: "start", Call: call})
+		t0 := time.Now()
+		err := sp.TarsInvoke(ctx, 0, "echo", buf, nil, nil, &resp)
+		dur := time.Since(t0)
+		cancel()
+		out, es := "reply", ""
+		var pay uint32
+		if err != nil {
+			es = err.Error()
+			if len(es) > 100 {
+				es = es[:100]
+			}
+			if infos[call].status == basef.TARSINVOKETIMEOUT {
+				out = "timeout"
+			} else {
+				out = "error"
+			}
+		} else if len(resp.SBuffer) >= 4 {
+			pay = uint32(uint8(resp.SBuffer[0]))<<24 | uint32(uint8(resp.SBuffer[1]))<<16 | uint32(uint8(resp.SBuffer[2]))<<8 | uint32(uint8(resp.SBuffer[3]))
+			if pay != tag || resp.IRequestId != infos[call].id {
+				out = "badreply"
+			}
+		} else {
+			out = "badreply"
+		}
+		q, n, p := snapshot()
+		log.add(c09Event{Kind: "ret", Call: call, ID: infos[call].id, Out: out, Pay: pay, Q: q, N: n, P: len(p)})
+		checkSeq("after return", call, q, n, p, 0)
+		rmu.Lock()
+		results[call] = c09CallObs{Call: call, Caller: k, ID: infos[call].id, StartMs: t0.Sub(log.t0).Milliseconds(), DurMs: dur.Milliseconds(), Out: out, Err: es}
+		rmu.Unlock()
+	}
 	for k := 0; k < c.Callers; k++ {
 		wg.Add(1)
 		go func(k int) {
 			defer wg.Done()
 			<-start
 			for j := 0; j < c.Calls; j++ {
-				call := k*c.Calls + j
-				buf := make([]byte, size)
-				tag := uint32(0xA0000000) | uint32(call)
-				buf[0], buf[1], buf[2], buf[3] = byte(tag>>24), byte(tag>>16), byte(tag>>8), byte(tag)
-				ctx := current.ContextWithClientCurrent(context.WithValue(context.Background(), c09CtxKey{}, call))
-				if c.PerCallMs > 0 {
-					current.SetClientTimeout(ctx, c.PerCallMs)
-				}
-				cancel := func() {}
-				if c.CtxMs > 0 {
-					ctx, cancel = context.WithTimeout(ctx, time.Duration(c.CtxMs)*time.Millisecond)
-				}
-				var resp requestf.ResponsePacket
-				log.add(c09Event{Kind: "start", Call: call})
-				t0 := time.Now()
-				err := sp.TarsInvoke(ctx, 0, "echo", buf, nil, nil, &resp)
-				dur := time.Since(t0)
-				cancel()
-				out, es := "reply", ""
-				var pay uint32
-				if err != nil {
-					es = err.Error()
-					if len(es) > 100 {
-						es = es[:100]
-					}
-					if infos[call].status == basef.TARSINVOKETIMEOUT {
-						out = "timeout"
-					} else {
-						out = "error"
-					}
-				} else if len(resp.SBuffer) >= 4 {
-					pay = uint32(uint8(resp.SBuffer[0]))<<24 | uint32(uint8(resp.SBuffer[1]))<<16 | uint32(uint8(resp.SBuffer[2]))<<8 | uint32(uint8(resp.SBuffer[3]))
-					if pay != tag || resp.IRequestId != infos[call].id {
-						out = "badreply"
-					}
-				} else {
-					out = "badreply"
-				}
-				q, n, p := snapshot()
-				log.add(c09Event{Kind: "ret", Call: call, ID: infos[call].id, Out: out, Pay: pay, Q: q, N: n, P: len(p)})
-				checkSeq("after return", call, q, n, p, 0)
-				rmu.Lock()
-				results[call] = c09CallObs{Call: call, Caller: k, ID: infos[call].id, StartMs: t0.Sub(log.t0).Milliseconds(), DurMs: dur.Milliseconds(), Out: out, Err: es}
-				rmu.Unlock()
+				doCall(k*c.Calls+j, k)
 				if c.GapMs > 0 && j+1 < c.Calls {
 					time.Sleep(time.Duration(c.GapMs) * time.Millisecond)
 				}
@@ -280,6 +287,14 @@ func c09RunScenario(c *c09Case) *c09Obs {
 	log.mu.Lock()
 	log.t0 = time.Now()
 	log.mu.Unlock()
+	if c.Prime {
+		pd := make(chan struct{})
+		go func() { doCall(c.Callers*c.Calls, -1); close(pd) }()
+		select {
+		case <-pd:
+		case <-time.After(time.Duration(c.eff()+c.DialMs+c.WriteMs+4000) * time.Millisecond):
+		}
+	}
 	close(start)
 	done := make(chan struct{})
 	go func() { wg.Wait(); close(done) }()
@@ -400,11 +415,45 @@ func c09Monitors(c *c09Case) (fails []Failure, timing bool) {
 	// M1 deadline: every call returns by effective deadline + connection-establishment bound + slack
 	byDur := append([]c09CallObs(nil), o.Calls...)
 	sort.Slice(byDur, func(i, j int) bool { return byDur[i].DurMs < byDur[j].DurMs })
-	bound := int64(c.eff() + c.DialMs + c09SlackMs)
+	// the connection-establishment bound is granted only to calls that may have had to dial: calls that started
+	// before the peer accepted a connection, or while/after the connection was lost
+	var acceptSeq int64
+	var lossSeq []int64
+	startSeq, retSeq := map[int]int64{}, map[int]int64{}
+	for _, e := range o.Events {
+		switch e.Kind {
+		case "accept":
+			if acceptSeq == 0 {
+				acceptSeq = e.Seq
+			}
+		case "close", "kill":
+			lossSeq = append(lossSeq, e.Seq)
+		case "start":
+			startSeq[e.Call] = e.Seq
+		case "ret":
+			retSeq[e.Call] = e.Seq
+		}
+	}
+	mayDial := func(call int) bool {
+		if c.Conn != "accept" || acceptSeq == 0 || acceptSeq > startSeq[call] {
+			return true
+		}
+		for _, l := range lossSeq {
+			if rs, ok := retSeq[call]; !ok || l < rs {
+				return true
+			}
+		}
+		return false
+	}
 	for rank, r := range byDur {
 		if r.Out == "hang" {
 			add("call-deadline/never-returned/"+c.Conn, fmt.Sprintf("%s: call %d had not returned %d ms after its deadline", c.Name, r.Call, 4000))
 			continue
+		}
+		bound, dialB := int64(c.eff()+c09SlackMs), 0
+		if mayDial(r.Call) {
+			dialB = c.DialMs
+			bound += int64(c.DialMs)
 		}
 		if r.DurMs > bound {
 			sig := "call-deadline/" + c.Conn + "/" + c09ActsKey(c)
@@ -414,7 +463,7 @@ func c09Monitors(c *c09Case) (fails []Failure, timing bool) {
 			} else if c.Conn == "noread" && r.Out == "error" && r.DurMs <= int64(c.WriteMs+c09SlackMs) {
 				sig = "call-deadline / send-queue full"
 			}
-			add(sig, fmt.Sprintf("%s: call %d (%s) returned after %d ms; effective deadline %d ms + dial bound %d ms + slack %d ms = %d ms", c.Name, r.Call, r.Out, r.DurMs, c.eff(), c.DialMs, c09SlackMs, bound))
+			add(sig, fmt.Sprintf("%s: call %d (%s) returned after %d ms; effective deadline %d ms + dial bound %d ms + slack %d ms = %d ms", c.Name, r.Call, r.Out, r.DurMs, c.eff(), dialB, c09SlackMs, bound))
 			timing = true
 		}
 		if r.DurMs > c09Nominal(c, rank, r)+c09NominalMs {
@@ -582,9 +631,9 @@ func c09Coq(c *c09Case) string {
 	if c.Predict {
 		pred = "true"
 	}
-	return fmt.Sprintf("mkcase (mkcfg %d %d %d %d) %s [%s] %d %d %d %d %s [%s] [%s] (%d, %d, %d)",
+	return fmt.Sprintf("mkcase (mkcfg %d %d %d %d) %s [%s] %d %d %d %d %s %s [%s] [%s] (%d, %d, %d)",
 		c09U(c.DialMs), c09U(c.WriteMs), c09U(c.ReadMs), c.QueueLen, conn, strings.Join(acts, "; "),
-		c.Callers, c.Calls, c09U(c.eff()), c09U(c.GapMs), pred, strings.Join(obs, "; "), strings.Join(evs, "; "),
+		c.Callers, c.Calls, c09U(c.eff()), c09U(c.GapMs), coqBool(c.Prime && c.Callers > 1), pred, strings.Join(obs, "; "), strings.Join(evs, "; "),
 		c09NN(o.QueueLen), c09NN(o.InvokeNum), len(o.Pending))
 }
 
@@ -600,68 +649,116 @@ func c09Gen(tier string, rng *rand.Rand) []c09Case {
 	pick := func(l ...int) int { return l[rng.Intn(len(l))] }
 	base := func(name, conn string, acts []c09Act) c09Case {
 		return c09Case{Name: name, Conn: conn, Acts: acts, Callers: 1, Calls: 1, TimeoutMs: pick(200, 250, 300), DialMs: pick(300, 400),
-			WriteMs: pick(400, 500), ReadMs: 100, QueueLen: pick(4, 100), Filter: []string{"prepost", "cf"}[rng.Intn(2)], Predict: true, Warm: true}
+			WriteMs: pick(400, 500), ReadMs: pick(50, 100), QueueLen: pick(4, 100, 1000), Filter: []string{"prepost", "cf"}[rng.Intn(2)], Predict: true, Warm: true}
 	}
 	rep := func(d int) []c09Act { return []c09Act{{Do: "reply", DelayMs: d}} }
+	// concurrent callers on an established connection: one call alone first (answered at once), then the callers
+	prime := func(c c09Case) c09Case {
+		c.Prime = true
+		c.Acts = append([]c09Act{{Do: "reply"}}, c.Acts...)
+		c.Name += "+established"
+		return c
+	}
+	maybePrime := func(c c09Case) c09Case {
+		if rng.Intn(3) > 0 {
+			return prime(c)
+		}
+		return c
+	}
+	r10 := func(v int) int { return v / 10 * 10 }
 	rounds := 1
 	if tier == "thorough" {
-		rounds = 6
+		rounds = 8
 	}
 	for round := 0; round < rounds; round++ {
-		// answers in time / late / never, sequential and concurrent
+		// ---- one sequential caller
 		c := base("reply-fast", "accept", rep(0))
 		c.Calls = pick(3, 5, 8)
 		c.GapMs = pick(0, 10, 30)
 		cs = append(cs, c)
-		c = base("reply-fast-concurrent", "accept", rep(pick(0, 20, 50)))
-		c.Callers = pick(2, 4, 8, 16, 32)
-		cs = append(cs, c)
-		c = base("reply-slow", "accept", nil)
-		c.Acts = rep(c.TimeoutMs / 2 / 10 * 10)
-		c.Callers = pick(1, 2, 8)
-		cs = append(cs, c)
-		c = base("reply-late", "accept", nil)
-		c.Acts = []c09Act{{Do: "reply", DelayMs: c.TimeoutMs * 3 / 2 / 10 * 10}, {Do: "reply", DelayMs: 0}}
-		c.Calls = 3
-		c.GapMs = 20
-		cs = append(cs, c)
-		c = base("reply-late-concurrent", "accept", nil)
-		c.Acts = rep(c.TimeoutMs * 2)
-		c.Callers = pick(2, 4, 16, 64)
-		cs = append(cs, c)
-		c = base("silent", "accept", []c09Act{{Do: "none"}})
-		c.Callers = pick(1, 3, 8, 64)
-		cs = append(cs, c)
-		// a mixed script for one sequential caller: in time, late, forged ids, twice, garbage, never, in time
 		c = base("mixed-sequential", "accept", nil)
 		T := c.TimeoutMs
-		c.Acts = []c09Act{{"reply", T / 2 / 10 * 10}, {"reply", T * 3 / 2 / 10 * 10}, {"reply", 0}, {"forged", 20}, {"dup", 10}, {"garbbody", 30}, {"none", 0}, {"reply", 0}, {"garbonly", 0}, {"reply", 10}}
+		c.Acts = []c09Act{{"reply", r10(T / 2)}, {"reply", r10(T * 3 / 2)}, {"reply", 0}, {"forged", 20}, {"dup", 10}, {"garbbody", 30}, {"none", 0}, {"reply", 0}, {"garbonly", 0}, {"reply", 10}, {"dup", r10(T * 3 / 2)}, {"forged", r10(T * 3 / 2)}, {"reply", 0}}
 		c.Calls = len(c.Acts)
 		c.GapMs = 10
 		cs = append(cs, c)
-		// deadlines: context deadline shorter / longer than the configured timeout, per-call timeout
-		c = base("ctx-shorter-silent", "accept", []c09Act{{Do: "none"}})
-		c.TimeoutMs = 600
-		c.CtxMs = pick(100, 150, 200)
-		c.Callers = pick(1, 4)
+		c = base("reply-late", "accept", nil)
+		c.Acts = []c09Act{{"reply", 0}, {"reply", r10(c.TimeoutMs * 3 / 2)}, {"reply", 0}}
+		c.Calls = 4
+		c.GapMs = 20
 		cs = append(cs, c)
-		c = base("ctx-longer-silent", "accept", []c09Act{{Do: "none"}})
+		c = base("ctx-shorter", "accept", []c09Act{{"reply", 0}, {"none", 0}, {"reply", 50}, {"reply", 350}})
+		c.TimeoutMs = 600
+		c.CtxMs = pick(150, 200, 250)
+		c.Calls = 4
+		cs = append(cs, c)
+		c = base("ctx-longer", "accept", []c09Act{{"reply", 0}, {"reply", 200}, {"none", 0}})
 		c.TimeoutMs = 100
 		c.CtxMs = pick(300, 400)
+		c.Calls = 3
 		cs = append(cs, c)
-		c = base("ctx-longer-slow-reply", "accept", rep(200))
-		c.TimeoutMs = 100
-		c.CtxMs = 400
-		cs = append(cs, c)
-		c = base("percall-shorter-silent", "accept", []c09Act{{Do: "none"}})
+		c = base("percall-shorter", "accept", []c09Act{{"reply", 0}, {"none", 0}, {"reply", 350}})
 		c.TimeoutMs = 600
-		c.PerCallMs = pick(100, 200)
+		c.PerCallMs = pick(150, 200, 250)
+		c.Calls = 3
 		cs = append(cs, c)
-		c = base("percall-longer-slow-reply", "accept", rep(200))
+		c = base("percall-longer", "accept", []c09Act{{"reply", 0}, {"reply", 200}, {"none", 0}})
 		c.TimeoutMs = 100
-		c.PerCallMs = 400
+		c.PerCallMs = pick(300, 400)
+		c.Calls = 3
 		cs = append(cs, c)
-		// the peer closes / sends garbage
+		c = base("ctx-beats-percall", "accept", []c09Act{{"reply", 0}, {"none", 0}})
+		c.TimeoutMs = 600
+		c.PerCallMs = 500
+		c.CtxMs = pick(150, 250)
+		c.Calls = 2
+		cs = append(cs, c)
+		// after a close the proxy is used again (the outcome of the later calls is C11's subject: monitors only)
+		c = base("close-then-more", "accept", []c09Act{{Do: "reply"}, {Do: "close"}, {Do: "reply"}})
+		c.Calls = 5
+		c.GapMs = 30
+		c.Predict = false
+		cs = append(cs, c)
+		c = base("garbage-length-then-more", "accept", []c09Act{{Do: "reply"}, {Do: "garblen"}, {Do: "reply"}})
+		c.Calls = 4
+		c.GapMs = 30
+		c.Predict = false
+		cs = append(cs, c)
+		c = base("refused", "refuse", []c09Act{{Do: "none"}})
+		c.Calls = pick(1, 3)
+		cs = append(cs, c)
+		c = base("stalled-connect-single", "stall", []c09Act{{Do: "none"}})
+		c.TimeoutMs = pick(100, 200)
+		c.Calls = pick(1, 2)
+		cs = append(cs, c)
+		// ---- concurrent callers
+		c = base("reply-fast-concurrent", "accept", rep(pick(0, 20, 50)))
+		c.Callers = pick(2, 4, 8, 16, 32)
+		cs = append(cs, maybePrime(c))
+		c = base("reply-slow-concurrent", "accept", nil)
+		c.Acts = rep(r10(c.TimeoutMs / 2))
+		c.Callers = pick(2, 8, 16)
+		cs = append(cs, maybePrime(c))
+		c = base("reply-late-concurrent", "accept", nil)
+		c.Acts = rep(c.TimeoutMs * 2)
+		c.Callers = pick(2, 4, 16, 64)
+		cs = append(cs, maybePrime(c))
+		c = base("silent-concurrent", "accept", []c09Act{{Do: "none"}})
+		c.Callers = pick(3, 8, 64)
+		cs = append(cs, prime(c))
+		c = base("silent-concurrent-first-use", "accept", []c09Act{{Do: "none"}})
+		c.Callers = pick(2, 8, 32)
+		cs = append(cs, c)
+		c = base("ctx-shorter-silent-concurrent", "accept", []c09Act{{Do: "none"}})
+		c.TimeoutMs = 600
+		c.CtxMs = pick(100, 150, 200)
+		c.Callers = pick(2, 4, 16)
+		cs = append(cs, prime(c))
+		c = base("percall-shorter-silent-concurrent", "accept", []c09Act{{Do: "none"}})
+		c.TimeoutMs = 600
+		c.PerCallMs = pick(100, 150, 200)
+		c.Callers = pick(2, 4, 16)
+		cs = append(cs, prime(c))
 		for _, k := range []string{"close", "garblen"} {
 			c = base(k+"-on-request", "accept", []c09Act{{Do: k}})
 			c.Callers = pick(1, 2, 6)
@@ -672,36 +769,41 @@ func c09Gen(tier string, rng *rand.Rand) []c09Case {
 		cs = append(cs, c)
 		c = base("garbage-body-concurrent", "accept", []c09Act{{Do: "garbbody", DelayMs: 40}})
 		c.Callers = pick(2, 8)
-		cs = append(cs, c)
+		cs = append(cs, maybePrime(c))
+		c = base("garbage-only-concurrent", "accept", []c09Act{{Do: "garbonly"}})
+		c.Callers = pick(2, 8)
+		cs = append(cs, prime(c))
 		c = base("forged-concurrent", "accept", []c09Act{{Do: "forged", DelayMs: 30}})
 		c.Callers = pick(2, 8, 16)
-		cs = append(cs, c)
+		cs = append(cs, maybePrime(c))
 		c = base("dup-concurrent", "accept", []c09Act{{Do: "dup", DelayMs: 20}})
 		c.Callers = pick(2, 8, 16)
-		cs = append(cs, c)
-		// after a close the proxy is used again (outcome of the later calls is C11's subject: monitors only)
-		c = base("close-then-more", "accept", []c09Act{{Do: "close"}, {Do: "reply"}})
-		c.Calls = 4
-		c.GapMs = 30
-		c.Predict = false
-		cs = append(cs, c)
+		cs = append(cs, maybePrime(c))
+		c = base("dup-late-concurrent", "accept", nil)
+		c.Acts = []c09Act{{Do: "dup", DelayMs: r10(c.TimeoutMs * 3 / 2)}}
+		c.Callers = pick(2, 8, 16)
+		cs = append(cs, prime(c))
 		// replies that race with the deadline (either outcome is right: monitors only)
 		c = base("reply-at-deadline", "accept", nil)
 		c.Acts = rep(c.TimeoutMs)
 		c.Callers = pick(16, 64)
 		c.Predict = false
+		cs = append(cs, prime(c))
+		// concurrent first use without a prepared adapter (racing first callers may each create one: monitors only)
+		c = base("cold-concurrent-silent", "accept", []c09Act{{Do: "none"}})
+		c.Callers = pick(8, 32)
+		c.Warm = false
+		c.Predict = false
+		cs = append(cs, c)
+		c = base("cold-concurrent-reply", "accept", rep(pick(0, 30)))
+		c.Callers = pick(8, 32)
+		c.Calls = 3
+		c.Warm = false
+		c.Predict = false
 		cs = append(cs, c)
 		// connection establishment: refused, stalled
-		c = base("refused", "refuse", []c09Act{{Do: "none"}})
-		c.Callers = pick(1, 4)
-		c.Calls = pick(1, 3)
-		if c.Callers > 1 {
-			c.Calls = 1
-		}
-		cs = append(cs, c)
-		c = base("stalled-connect-single", "stall", []c09Act{{Do: "none"}})
-		c.TimeoutMs = pick(100, 200)
-		c.Calls = pick(1, 2)
+		c = base("refused-concurrent", "refuse", []c09Act{{Do: "none"}})
+		c.Callers = pick(2, 4, 16)
 		cs = append(cs, c)
 		c = base("stalled-connect-concurrent", "stall", []c09Act{{Do: "none"}})
 		c.TimeoutMs = pick(100, 200)
@@ -762,7 +864,7 @@ func init() {
 			Corr:     "corr_C09_scenario (canonical model run predicts outcome classes and return times; event trace accepted)",
 			Rule:     "distinct (connection behaviour, peer actions, sequential/concurrent, deadline source, filter style, set of outcome classes)",
 			Shard:    60,
-			Workers:  6,
+			Workers:  8,
 			Gen:      c09Gen,
 			Run:      func(c *c09Case) []Failure { return c09Run(c) },
 			Coq:      c09Coq,
